@@ -4,7 +4,7 @@
    Common.bad_indices. *)
 From Coq Require Import ZArith List Bool.
 Import ListNotations.
-Require Import SV.Common SV.C11.Base SV.C11.Utf8 SV.C11.Gen_events SV.C11.Envelope SV.C11.Tick SV.C11.Notify SV.C11.Routing.
+Require Import SV.Common SV.C11.Base SV.C11.Utf8 SV.C11.Gen_events SV.C11.Envelope SV.C11.Tick SV.C11.Notify SV.C11.Routing SV.C11.Capture SV.C11.Listeners.
 Open Scope Z_scope.
 
 Definition otext_eqb := option_eqb zlist_eqb.
@@ -83,7 +83,7 @@ Definition check_proc (c : proc * pstep * (bool * Z * Z * Z) * list (evclass * o
    per operation the result and the notifications it produced *)
 Definition sres_eqb (a b : sres) : bool :=
   match a, b with
-  | RTrue, RTrue | RFalse, RFalse | RNone, RNone | RKeyError, RKeyError => true
+  | RTrue, RTrue | RFalse, RFalse | RNone, RNone | RKeyError, RKeyError | RException, RException => true
   | _, _ => false
   end.
 
@@ -121,3 +121,19 @@ Definition check_reject (c : list (Z * list evclass) * list rop * list (Z * list
   let w := rrun (map (fun e => (fst e, new_pool (snd e))) ps) l in
   list_eqb (fun x y => (fst x =? fst y) && zlist_eqb (snd x) (snd y))
            (map (fun e => (fst e, sent_of w (fst e))) ps) r.
+
+(* BoundIO driven directly, and the bytes on the listener's stdin for a
+   PROCESS_COMMUNICATION event whose data went through the capture buffer *)
+Definition check_bound (c : Z * list bytes * bytes) : bool :=
+  let '(m, chunks, r) := c in zlist_eqb (bound_writes m chunks) r.
+Definition check_capture (c : Z * list bytes * (text * text * Z * Z * evclass * text * option text * Z) * option bytes) : bool :=
+  let '(m, chunks, (sid, pool, serial, ps, cl, pname, g, pid), r) := c in
+  otext_eqb (dispatch_wire sid pool serial ps cl (AComm pname g pid (DBytes (bound_writes m chunks)))) r.
+
+(* one pool, several listeners that acknowledge, reject, misbehave and die: per
+   listener the serials it was sent, and what is left in the pool's buffer *)
+Definition check_listeners (c : Z * list lop * list (list Z) * list Z) : bool :=
+  let '(n, l, sent, lft) := c in
+  let k := Z.to_nat (Z.min n 8) in
+  let s := lrun k l in
+  list_eqb zlist_eqb (map (sent_to s) (seq 0 k)) sent && zlist_eqb (l_buf s) lft && once_after_ok (l_log s).
